@@ -157,7 +157,7 @@ impl Number {
             if self.unit.iter().any(|(_, &power)| {
                 power
                     .checked_mul(exp as i64)
-                    .map_or(true, |power| power.abs() > i32::MAX as i64)
+                    .map_or(true, |power| power.unsigned_abs() > i32::MAX as u64)
             }) {
                 return Err("Exponent is too large".to_string());
             }
